@@ -1,4 +1,5 @@
 import Afkak.Producer
+import Afkak.ProducerR
 import Driver.ProducerCodec
 /-! Line-protocol driver for the Producer model (exe `model_producer`).
 Requests: `reset`, `init …`, one line per event (see `Driver/ProducerCodec.lean`), and the monitor
@@ -8,7 +9,9 @@ open Afkak.Producer Driver Driver.ProducerCodec
 
 structure DSt where
   cfg : Option Cfg := none
-  st : St := {}
+  /-- the re-entrant machine's state (`Afkak/ProducerR.lean`); on flat events it IS the flat machine
+      (`AfkakProofs/Producer/ReentrantExt.lean`: `stepCore_flat`) -/
+  st : Afkak.ProducerR.StR := { core := {} }
   /-- recording an implementation trace for the monitors -/
   recd : Option (List String) := none
 
@@ -27,13 +30,13 @@ def step (d : DSt) (line : String) : DSt × List String :=
       match parseCfg args with
       | some cfg =>
         let st := St.init cfg
-        ({ d with cfg := some cfg, st := st }, [s!"ok looper={if st.looper then 1 else 0}"])
+        ({ d with cfg := some cfg, st := { core := st } }, [s!"ok looper={if st.looper then 1 else 0}"])
       | none => (d, ["bad-op"])
     | ws =>
-      match d.cfg, parseEv ws with
+      match d.cfg, parseEvR ws with
       | some cfg, some ev =>
-        let (st', obs) := Afkak.Producer.step cfg d.st ev
-        ({ d with st := st' }, obs.map showOb ++ [showState st'])
+        let (st', obs) := Afkak.ProducerR.stepR cfg 12 d.st ev
+        ({ d with st := st' }, obs.map showObR ++ [showState st'.core])
       | _, _ => (d, ["bad-op"])
 
 end Driver.Producer
